@@ -3,6 +3,7 @@ package main
 import (
 	"context"
 	"encoding/binary"
+	"encoding/json"
 	"errors"
 	"flag"
 	"fmt"
@@ -227,7 +228,7 @@ func (r *replRun) ready() bool {
 
 var replFirstTail int // index of the first tail-loss history
 
-func replHistory(rec *trace.Recorder, dir string, rng *rand.Rand, steps int, tailLoss bool, h int, sum *trace.Summary) {
+func replHistory(rec *trace.Recorder, dir string, rng *rand.Rand, steps int, tailLoss bool, h int, sum *trace.Summary, scripted []string) {
 	faults := &replFaults{}
 	fol := &followerNode{dir: filepath.Join(dir, "follower")}
 	if err := fol.open(); err != nil {
@@ -239,7 +240,7 @@ func replHistory(rec *trace.Recorder, dir string, rng *rand.Rand, steps int, tai
 		sum.Unresolved = append(sum.Unresolved, err.Error())
 		return
 	}
-	rec.Reset(trace.F{"mode": "repl", "h": h, "tailloss": tailLoss})
+	rec.Reset(trace.F{"mode": "repl", "h": h, "tailloss": tailLoss, "generated": scripted != nil})
 	run.proj()
 	script := []string{}
 	// every other tail-loss history keeps the follower caught up, so that the leader loses positions the
@@ -263,16 +264,28 @@ func replHistory(rec *trace.Recorder, dir string, rng *rand.Rand, steps int, tai
 			// the follower's write fails once while the stream stays healthy; more appends and rounds follow
 			"append", "append", "append", "roundfput", "round", "round", "hs", "round", "round", "round", "round"}
 	}
+	if scripted != nil {
+		// leg R: a behaviour of the model chosen by TLC (ReplicationGen), executed step by step; nothing is random
+		forced, steps = append([]string{}, scripted...), len(scripted)
+	}
 	for i := 0; i < steps; i++ {
+		if scripted != nil && len(forced) == 0 {
+			break
+		}
 		*faults = replFaults{}
 		c := rng.Intn(100)
 		pending := run.llog.Queue().AppendedSeq() > func() int64 { g, _ := run.llog.GetOrCreateConsumerGroup("2"); return g.ConsumedSeq() }()
 		// the step: scripted (forced) or chosen at random
 		op := ""
 		forceFput := false
+		forceFault := ""
 		loseK := int64(1 + rng.Intn(3))
 		if len(forced) > 0 {
 			op, forced = forced[0], forced[1:]
+			if strings.HasPrefix(op, "hs:") || strings.HasPrefix(op, "round:") {
+				forceFault = op[strings.Index(op, ":")+1:]
+				op = op[:strings.Index(op, ":")]
+			}
 			if strings.HasPrefix(op, "losetail:") {
 				loseK = int64(op[len("losetail:")] - '0')
 				op = "losetail"
@@ -285,7 +298,7 @@ func replHistory(rec *trace.Recorder, dir string, rng *rand.Rand, steps int, tai
 			if forceFput {
 				op = "round"
 			}
-			if (op == "hs" && run.ready()) || (op == "round" && (!run.ready() || !pending)) {
+			if scripted == nil && ((op == "hs" && run.ready()) || (op == "round" && (!run.ready() || !pending))) {
 				continue
 			}
 		} else {
@@ -313,7 +326,11 @@ func replHistory(rec *trace.Recorder, dir string, rng *rand.Rand, steps int, tai
 		switch op {
 		case "hs":
 			f := "none"
-			switch rng.Intn(12) {
+			pick := rng.Intn(12)
+			if forceFault != "" {
+				pick = map[string]int{"ack": 0, "reset": 1, "connect": 2, "none": 11}[forceFault]
+			}
+			switch pick {
 			case 0:
 				f, faults.ack = "ack", true
 			case 1:
@@ -326,7 +343,11 @@ func replHistory(rec *trace.Recorder, dir string, rng *rand.Rand, steps int, tai
 			script = append(script, "hs:"+f)
 		case "round":
 			f := "none"
-			switch rng.Intn(12) {
+			pick := rng.Intn(12)
+			if forceFault != "" {
+				pick = map[string]int{"send": 0, "recv": 1, "fput": 2, "none": 11}[forceFault]
+			}
+			switch pick {
 			case 0:
 				f, faults.send = "send", true
 			case 1:
@@ -443,6 +464,7 @@ func replMain(args []string) int {
 	seed := fs.Int64("seed", 1, "seed")
 	nh := fs.Int("histories", 50, "histories without leader tail loss")
 	nt := fs.Int("tailloss", 0, "histories with leader tail loss")
+	scripts := fs.String("scripts", "", "leg R: JSON file with behaviours generated by TLC from ReplicationGen (list of lists of steps); replaces the random histories")
 	steps := fs.Int("steps", 60, "steps per history")
 	scratch := fs.String("scratch", "", "scratch directory")
 	_ = fs.Parse(args)
@@ -458,10 +480,32 @@ func replMain(args []string) int {
 	}
 	rng := rand.New(rand.NewSource(*seed))
 	sum := &trace.Summary{Module: "Replication", Extra: map[string]any{}}
+	if *scripts != "" {
+		var gen [][]string
+		b, err := os.ReadFile(*scripts)
+		if err == nil {
+			err = json.Unmarshal(b, &gen)
+		}
+		if err != nil {
+			fmt.Println("scripts:", err)
+			return 2
+		}
+		replFirstTail = 1 << 30
+		for h, sc := range gen {
+			d := filepath.Join(*scratch, fmt.Sprintf("g%d", h))
+			tail := false
+			for _, op := range sc {
+				tail = tail || strings.HasPrefix(op, "losetail")
+			}
+			replHistory(rec, d, rand.New(rand.NewSource(int64(h))), len(sc), tail, 1000+h, sum, sc)
+			os.RemoveAll(d)
+		}
+		*nh, *nt = 0, 0
+	}
 	for h := 0; h < *nh+*nt; h++ {
 		d := filepath.Join(*scratch, fmt.Sprintf("r%d", h))
 		replFirstTail = *nh
-		replHistory(rec, d, rand.New(rand.NewSource(rng.Int63())), *steps, h >= *nh, h, sum)
+		replHistory(rec, d, rand.New(rand.NewSource(rng.Int63())), *steps, h >= *nh, h, sum, nil)
 		os.RemoveAll(d)
 	}
 	_ = rec.Close()
